@@ -398,7 +398,22 @@ def render_file(path, module, moddir, ctx):
             for m in re.finditer(r'(?m)^[ \t]*((?:pub(?:\([^)]*\))?\s+)?(?:const|static)\s+%s\s*:)' % re.escape(k[len('const '):]), src):
                 if not any(a <= m.start(1) < b for a, b in sc.drop_spans):
                     hidden[m.start(1)] = k
+    # `static` items: inside verus!{} a static needs Verus' own `exec static .. ensures ..` syntax (a plain one is rejected, a
+    # `pub` one with a message about `open`); they are hidden from the verifier (`#[verifier::external]`, visibility left as it
+    # is) and the functions that read them are then left unverified by the usual escalation
+    statics = set()
+    for m in re.finditer(r'(?m)^[ \t]*((?:pub(?:\([^)]*\))?\s+)?static\s+(?:mut\s+)?\w+\s*:)', src):
+        if any(a <= m.start(1) < b for a, b in sc.drop_spans) or in_comment_or_string(toks, m.start(1)):
+            continue
+        if any(f.has_body and f.body_start <= m.start(1) < f.body_end for f in sc.fns):
+            continue
+        statics.add(m.start(1))
+        edits.append(Edit(m.start(1), m.start(1), '#[verifier::external] '))
+        info.opaque_consts.append('static ' + src[m.start(1):m.end(1)].split(':')[0].split()[-1])
+        hidden.pop(m.start(1), None)
     for pos in sc.private_consts:
+        if pos in statics:
+            continue
         if not any(a <= pos < b for a, b in sc.drop_spans):
             if pos in hidden:
                 info.opaque_consts.append(hidden.pop(pos))
@@ -410,9 +425,19 @@ def render_file(path, module, moddir, ctx):
         edits.append(Edit(pos, pos, '#[verifier::external_body] '))
     # `const X: &T = ..` (elided lifetime, 'static by the language rules): inside verus!{} the elision is rejected for
     # associated constants, so the lifetime is written out (no change of meaning)
-    for m in re.finditer(r'\b(?:const|static)\s+\w+\s*:\s*&(?!\s*\')', src):
-        if not any(a <= m.start() < b for a, b in sc.drop_spans) and not in_comment_or_string(toks, m.end() - 1):
-            edits.append(Edit(m.end(), m.end(), "'static "))
+    # (every elided reference lifetime in the item's type, e.g. `[&dyn Trait; 10]`, not only a leading one)
+    for m in re.finditer(r'\b(?:const|static)\s+(?:mut\s+)?\w+\s*:', src):
+        if any(a <= m.start() < b for a, b in sc.drop_spans) or in_comment_or_string(toks, m.end() - 1):
+            continue
+        depth, j = 0, m.end()
+        while j < len(src) and not (depth == 0 and src[j] in '=;'):
+            if src[j] in '<[(':
+                depth += 1
+            elif src[j] in '>])':
+                depth -= 1
+            elif src[j] == '&' and not re.match(r"&\s*'", src[j:j + 8]):
+                edits.append(Edit(j + 1, j + 1, "'static "))
+            j += 1
     for d in sc.derives:
         inside_drop = any(a <= d.start < b for a, b in sc.drop_spans)
         if inside_drop:
